@@ -291,7 +291,27 @@ func registryFacts(s *src, f *facts) {
 	if sb != nil && len(sb.List) > 0 {
 		lastIsWait = contains(sb.List[len(sb.List)-1], wait)
 	}
-	f.b("rgUnregisterDeferredAfterWait", unregDefer != nil && wait != nil && lastIsWait && directStmt(sb, wait) && before(ins, unregDefer), s.pos(unregDefer))
+	// nothing can leave the goroutine between the registration and the deferral of its removal (an early `return`
+	// there would leave the link enumerated for ever and its disconnect hooks unfired)
+	noExit := true
+	if sb != nil && ins != nil && unregDefer != nil {
+		ast.Inspect(sb, func(x ast.Node) bool {
+			switch v := x.(type) {
+			case *ast.FuncLit:
+				return false
+			case *ast.ReturnStmt:
+				if v.Pos() > ins.Pos() && v.Pos() < unregDefer.Pos() {
+					noExit = false
+				}
+			case *ast.CallExpr:
+				if fn := s.str(v.Fun); (fn == "panic" || fn == "runtime.Goexit") && v.Pos() > ins.Pos() && v.Pos() < unregDefer.Pos() {
+					noExit = false
+				}
+			}
+			return true
+		})
+	}
+	f.b("rgUnregisterDeferredAfterWait", unregDefer != nil && wait != nil && lastIsWait && directStmt(sb, wait) && before(ins, unregDefer) && noExit, s.pos(unregDefer))
 	// both loops are started after registration, each with wg.Add(1) / defer wg.Done()
 	loops := 0
 	afterReg := true
